@@ -162,6 +162,10 @@ func (q *queryStmtParser) completeSortField(_ *grammar.SortFieldContext) {
 
 // check order by expr if valid, returns err when invalid.
 func (q *queryStmtParser) check() error {
+	if q.curOrderByExpr.Expr == nil {
+		// order by item isn't a field/function(like duration or *), it cannot be executed/serialized.
+		return errors.New("order by expr is missing")
+	}
 	var fieldName string
 	switch e := q.curOrderByExpr.Expr.(type) {
 	case *stmt.CallExpr:
